@@ -35,11 +35,12 @@ LEVEL = "exploration"
 RULE = ("case = artifact DAG (random meta/build.date/metaEnv fields, missing fields, shared references) + history of "
         "add/remove/replace operations and scan/find/clean commands with expression lists generated from the retention "
         "grammar (comparisons, &&, ||, !, LIMIT, ORDER BY ASC/DESC); non-trivial = at least one command ran on an index "
-        "that was stale w.r.t. the directory; distinct = digest of (commands, model results)")
+        "that was stale w.r.t. the directory; every fourth case drives two configured archives (-a / -b) that share one scan "
+        "index and hold the same Build-Ids with differing audit data; distinct = digest of (commands, model results)")
 COMPONENTS = {"real": ["bob archive scan/find/clean CLI (cmds/archive.py: ArchiveScanner, RetainExpression, query, doArchiveClean)",
                        "archive.LocalArchive (listDir/stat/getAudit/deleteFile), TarHelper._pack/_extractAudit", "audit parsing",
                        "sqlite index on tmpfs"],
-              "stub": ["stat clock of artifact files"], "not_exercised": ["http/azure managed archives", "multiple backends (-a/-b)"]}
+              "stub": ["stat clock of artifact files"], "not_exercised": ["http/azure managed archives"]}
 ASSUMPTIONS = ["every modification of an artifact file changes its stat data (new inode / fresh mtime)"]
 SHRINK = ["ops", "arts"]
 
@@ -250,6 +251,8 @@ def rel_of(a):
     return os.path.join(h[0:2], h[2:4], h[4:] + ".tgz")
 
 def gen_case(rng, tier, index):
+    if index % 4 == 3:
+        return gen_case_multi(rng)
     n = rng.choice([3, 5, 8, 12])
     arts = []
     for i in range(n):
@@ -325,6 +328,8 @@ def _closure(sel, present, arts):
     return set(sel) | {d for d in seen if d in present}
 
 def run_case(case):
+    if case.get("multi"):
+        return run_case_multi(case)
     top = common.scratch_dir("c19-%d" % os.getpid())
     stats = common.Counter()
     log = []
@@ -465,5 +470,319 @@ def run_case(case):
     return {"violation": viol, "digest": common.digest_of(log), "stats": dict(stats), "nontrivial": stale_used,
             "sim_time": float(len(log)),
             "sample": {"n_arts": len(case["arts"]), "directed": case.get("directed"),
+                       "ops": [[o[0]] + ([[render_expr(e) for e in o[1]]] + o[2:] if o[0] in ("find", "clean") else o[1:]) for o in case["ops"]][:12],
+                       "log": log[:8]}}
+
+# ---------------------------------------------------------------------------
+# several configured archives sharing one scan index (bob archive -a / -b name)
+
+ARCHS = ["a", "b"]
+
+def _gen_sel(rng):
+    r = rng.random()
+    if r < 0.3:
+        return ["all"]
+    if r < 0.5:
+        return ["a", "b"] if rng.random() < 0.5 else ["b", "a"]
+    return [rng.choice(ARCHS)]
+
+def _sel_names(sel):
+    return list(ARCHS) if sel == ["all"] else list(sel)
+
+def gen_case_multi(rng):
+    n = rng.choice([3, 5, 8])
+    arts = []
+    for i in range(n):
+        arts.append(gen_art(rng, i, [a["id"] for a in arts]))
+    dates = sorted({a["date"] for a in arts} | {"2020-01-%02dT12:00:00" % d for d in (2, 5, 8)})
+    def variant():
+        # the copy of this Build-Id in the other archive was built independently: other audit data
+        if rng.random() < 0.3:
+            return None
+        v = {"date": rng.choice(dates)}
+        if rng.random() < 0.6:
+            v["metaEnv"] = rng.choice([{}, {"LICENSE": "GPL"}, {"LICENSE": "MIT", "TEAM": "b"}, {"TEAM": "a"}])
+        if rng.random() < 0.3:
+            v["package"] = rng.choice(PKGS)
+        return v
+    ops = []
+    present = {w: set() for w in ARCHS}
+    scanned = {w: False for w in ARCHS}
+    for i in range(min(n, rng.choice([2, 3, 5]))):
+        first = rng.choice(ARCHS)
+        ops.append(["add", i, first, None]); present[first].add(i)
+        if rng.random() < 0.75:
+            other = "b" if first == "a" else "a"
+            ops.append(["add", i, other, variant()]); present[other].add(i)
+    nxt = max([len(present["a"] | present["b"])], default=0)
+    for _ in range(rng.choice([3, 5, 8, 12])):
+        r = rng.random()
+        w = rng.choice(ARCHS)
+        if r < 0.15 and nxt < n:
+            ops.append(["add", nxt, w, None]); present[w].add(nxt); scanned[w] = False
+            if rng.random() < 0.6:
+                o = "b" if w == "a" else "a"
+                ops.append(["add", nxt, o, variant()]); present[o].add(nxt); scanned[o] = False
+            nxt += 1
+        elif r < 0.3 and present[w]:
+            v = rng.choice(sorted(present[w])); ops.append(["remove", v, w]); present[w].discard(v); scanned[w] = False
+        elif r < 0.38 and present[w]:
+            ops.append(["replace", rng.choice(sorted(present[w])), rng.random() < 0.5, w]); scanned[w] = False
+        elif r < 0.5:
+            sel = _gen_sel(rng)
+            ops.append(["scan", sel])
+            for x in _sel_names(sel): scanned[x] = True
+        elif r < 0.72:
+            sel = _gen_sel(rng)
+            noscan = bool(all(scanned[x] for x in _sel_names(sel)) and rng.random() < 0.5)
+            ops.append(["find", [gen_expr(rng, dates) for _ in range(rng.choice([1, 1, 2]))], noscan, sel])
+            for x in _sel_names(sel): scanned[x] = True
+        else:
+            sel = _gen_sel(rng)
+            dry = rng.random() < 0.3
+            if dry:
+                sel = [rng.choice(ARCHS)]       # victims are printed without naming the archive
+            noscan = bool(all(scanned[x] for x in _sel_names(sel)) and rng.random() < 0.4)
+            ops.append(["clean", [gen_expr(rng, dates) for _ in range(rng.choice([1, 1, 2, 3]))], dry, noscan, sel])
+            for x in _sel_names(sel): scanned[x] = not dry or True
+            if not dry:
+                for x in _sel_names(sel): scanned[x] = False
+    return {"multi": True, "arts": arts, "ops": ops}
+
+def directed_cases_multi():
+    base = {"metaEnv": {}, "deps": [], "rev": 0}
+    arts = [dict(base, id=0, package="app", recipe="app", date="2020-01-02T00:00:00"),
+            dict(base, id=1, package="app", recipe="app", date="2020-01-05T00:00:00"),
+            dict(base, id=2, package="lib", recipe="lib", date="2020-01-03T00:00:00")]
+    newest = {"pred": ["==", ["f", "meta.package"], ["s", "app"]], "limit": 1}
+    mit = {"pred": ["==", ["f", "metaEnv.LICENSE"], ["s", "MIT"]]}
+    out = []
+    # same Build-Ids in both archives, built independently: in b artifact 0 is the newer one
+    ops = [["add", 0, "a", None], ["add", 1, "a", None], ["add", 2, "a", None],
+           ["add", 0, "b", {"date": "2020-01-09T00:00:00", "metaEnv": {"LICENSE": "MIT"}}], ["add", 1, "b", {"date": "2020-01-01T00:00:00"}],
+           ["add", 2, "b", {"package": "app", "date": "2020-01-04T00:00:00"}]]
+    for sel in (["all"], ["b"], ["b", "a"]):
+        out.append({"multi": True, "arts": arts, "directed": "two archives on one index, differing audit data, -a/-b %s" % sel,
+                    "ops": ops + [["scan", ["all"]], ["find", [newest], False, sel], ["find", [mit], True, sel], ["clean", [newest], False, False, sel]]})
+    out.append({"multi": True, "arts": arts, "directed": "scan a, then clean b only (rows of a must not leak into b)",
+                "ops": ops + [["scan", ["a"]], ["clean", [mit], True, False, ["b"]], ["clean", [mit], False, False, ["b"]], ["find", [newest], False, ["a"]],
+                              ["clean", [newest], False, False, ["a"]]]})
+    out.append({"multi": True, "arts": arts, "directed": "artifact vanishes from one archive only",
+                "ops": ops + [["scan", ["all"]], ["remove", 0, "b"], ["find", [newest], False, ["all"]], ["clean", [newest], False, False, ["all"]]]})
+    return out
+
+_directed_single = directed_cases
+def directed_cases(tier):
+    return _directed_single(tier) + directed_cases_multi()
+
+def _parse_sections(output):
+    """find output: {archive name: set of listed relative paths}"""
+    cur = None
+    out = {}
+    for l in output.splitlines():
+        if l.startswith("archive '") and l.rstrip().endswith("':"):
+            cur = l.split("'")[1]
+            out.setdefault(cur, set())
+        elif l.startswith("\t") and cur is not None:
+            out[cur].add(l.strip())
+    return out
+
+def run_case_multi(case):
+    top = common.scratch_dir("c19m-%d" % os.getpid())
+    stats = common.Counter()
+    log = []
+    viol = None
+    stale_used = False
+    try:
+        proj = os.path.join(top, "proj")
+        os.makedirs(os.path.join(proj, "recipes"))
+        adir = {w: os.path.join(top, "store-" + w) for w in ARCHS}
+        for w in ARCHS:
+            os.makedirs(adir[w])
+        common.write_file(os.path.join(proj, "config.yaml"), "bobMinimumVersion: \"1.0\"\n")
+        common.write_file(os.path.join(proj, "default.yaml"), "archive:\n" + "".join(
+            "  - name: %s\n    backend: file\n    path: %s\n    flags: [download, upload, managed]\n" % (w, adir[w]) for w in ARCHS))
+        clock = treegen.SimClock()
+        base = {a["id"]: dict(a) for a in case["arts"]}
+        arts = {w: {i: dict(a) for i, a in base.items()} for w in ARCHS}
+        present = {w: set() for w in ARCHS}
+        indexed = {w: None for w in ARCHS}
+        def sel_argv(sel):
+            if sel == ["all"]:
+                return ["-a"]
+            out = []
+            for x in sel:
+                out += ["-b", x]
+            return out
+        for n, op in enumerate(case["ops"]):
+            k = op[0]
+            if k == "add":
+                i, w, var = op[1], op[2], op[3]
+                if i not in base or w not in ARCHS:
+                    continue
+                if var:
+                    arts[w][i].update({kk: (dict(vv) if isinstance(vv, dict) else vv) for kk, vv in var.items()})
+                    stats.inc("same_buildid_differing_audit")
+                write_artifact(adir[w], arts[w][i], arts[w], clock, os.path.join(top, "tmp"))
+                present[w].add(i)
+                stats.inc("op_add")
+                continue
+            if k == "replace":
+                i, w = op[1], op[3]
+                if w not in ARCHS or i not in present[w]:
+                    continue
+                arts[w][i]["rev"] = arts[w][i].get("rev", 0) + 1
+                arts[w][i]["metaEnv"] = dict(arts[w][i]["metaEnv"], TEAM="z")
+                if op[2]:
+                    arts[w][i]["deps"] = arts[w][i]["deps"][1:]
+                write_artifact(adir[w], arts[w][i], arts[w], clock, os.path.join(top, "tmp"))
+                stats.inc("op_replace")
+                continue
+            if k == "remove":
+                i, w = op[1], op[2]
+                if w in ARCHS and i in present[w]:
+                    os.unlink(art_path(adir[w], arts[w][i]))
+                    present[w].discard(i)
+                    stats.inc("op_remove")
+                continue
+            sel = op[-1]
+            names = _sel_names(sel)
+            if any(x not in ARCHS for x in names) or not names:
+                continue
+            rel2id = {rel_of(base[i]): i for i in base}
+            for w in names:
+                if indexed[w] is not None and indexed[w] != present[w]:
+                    stale_used = True
+                    stats.inc("commands_on_stale_index")
+            if any(indexed[o] is not None for o in ARCHS if o not in names):
+                stats.inc("commands_with_foreign_rows_in_index")
+            if len(names) > 1:
+                stats.inc("commands_on_two_archives")
+            if k == "scan":
+                r = loopsim.run_bob(["archive"] + sel_argv(sel) + ["scan"], proj, {}, workdir=top)
+                if r.rc != 0:
+                    viol = {"kind": "scan-failed", "detail": r.output[-500:]}
+                    break
+                for w in names:
+                    indexed[w] = set(present[w])
+                log.append((n, "scan", sel))
+                continue
+            exprs = op[1]
+            noscan = op[2] if k == "find" else op[3]
+            model = {}
+            try:
+                for w in names:
+                    model[w] = model_select(exprs, {i: data_of(arts[w][i], arts[w]) for i in present[w]})
+            except ModelError:
+                stats.inc("expressions_with_invalid_ordering_skipped")
+                if not noscan:
+                    r = loopsim.run_bob(["archive"] + sel_argv(sel) + ["scan"], proj, {}, workdir=top)
+                    if r.rc == 0:
+                        for w in names:
+                            indexed[w] = set(present[w])
+                continue
+            argv_e = [render_expr(e) for e in exprs]
+            if k == "find":
+                argv = ["archive"] + sel_argv(sel) + ["find"] + (["-n"] if noscan else []) + argv_e
+                r = loopsim.run_bob(argv, proj, {}, workdir=top)
+                stats.inc("cmd_find")
+                if r.rc != 0:
+                    viol = {"kind": "find-failed", "detail": "%s: %s" % (argv, r.output[-500:])}
+                    break
+                sect = _parse_sections(r.output)
+                if not noscan:
+                    for w in names:
+                        indexed[w] = set(present[w])
+                log.append((n, "find", sorted((w, sorted(v)) for w, v in sect.items())))
+                if set(sect) != set(names):
+                    viol = {"kind": "find-wrong", "detail": "find %s reported archives %s, selected %s" % (argv, sorted(sect), names)}
+                    break
+                for w in names:
+                    mand, opt = model[w]
+                    got = {rel2id.get(x, x) for x in sect[w]}
+                    if not (mand <= got <= (mand | opt)):
+                        viol = {"kind": "find-wrong",
+                                "detail": "find %s listed %s for archive %s; its artifacts select %s (+ optional ties %s); present=%s" % (
+                                    argv, sorted(map(str, got)), w, sorted(mand), sorted(opt), sorted(present[w]))}
+                        break
+                if viol:
+                    break
+                continue
+            dry = op[2]
+            argv = ["archive"] + sel_argv(sel) + ["clean"] + (["--dry-run"] if dry else []) + (["-n"] if noscan else []) + argv_e
+            before = {w: _listing(adir[w]) for w in ARCHS}
+            fresh = None
+            if not dry:
+                fresh = os.path.join(top, "fresh")
+                common.rmtree(fresh)
+                os.makedirs(fresh)
+                shutil.copytree(proj, os.path.join(fresh, "proj"))
+                try:
+                    os.unlink(os.path.join(fresh, "proj", ".bob-archive.sqlite3"))
+                except FileNotFoundError:
+                    pass
+                cfgp = os.path.join(fresh, "proj", "default.yaml")
+                txt = open(cfgp).read()
+                for w in ARCHS:
+                    shutil.copytree(adir[w], os.path.join(fresh, "store-" + w))
+                    txt = txt.replace(adir[w], os.path.join(fresh, "store-" + w))
+                common.write_file(cfgp, txt)
+            r = loopsim.run_bob(argv, proj, {}, workdir=top)
+            stats.inc("cmd_clean_dry" if dry else "cmd_clean")
+            if r.rc != 0:
+                viol = {"kind": "clean-failed", "detail": "%s: %s" % (argv, r.output[-500:])}
+                break
+            after = {w: _listing(adir[w]) for w in ARCHS}
+            for w in ARCHS:
+                if w not in names and after[w] != before[w]:
+                    viol = {"kind": "clean-wrong", "detail": "clean %s changed archive %s which was not selected: removed %s" % (argv, w, sorted(before[w] - after[w]))}
+            if viol:
+                break
+            rng_k = {w: (_closure(model[w][0], present[w], arts[w]), _closure(model[w][0] | model[w][1], present[w], arts[w])) for w in names}
+            if dry:
+                w = names[0]
+                victims = {rel2id.get(l.strip(), l.strip()) for l in r.output.splitlines() if l.strip().endswith(".tgz")}
+                log.append((n, "clean-dry", sorted(map(str, victims))))
+                if after != before:
+                    viol = {"kind": "dry-run-deleted", "detail": "%s removed files" % (argv,)}
+                    break
+                would_keep = present[w] - {v for v in victims if isinstance(v, int)}
+                if not (rng_k[w][0] <= would_keep <= rng_k[w][1]) or any(not isinstance(v, int) for v in victims):
+                    viol = {"kind": "dry-run-wrong-victims",
+                            "detail": "%s would delete %s from archive %s; model keeps %s..%s of present %s" % (
+                                argv, sorted(map(str, victims)), w, sorted(rng_k[w][0]), sorted(rng_k[w][1]), sorted(present[w]))}
+                    break
+                if not noscan:
+                    indexed[w] = set(present[w])
+                continue
+            kept = {w: {rel2id[x] for x in after[w] if x in rel2id} for w in names}
+            log.append((n, "clean", sorted((w, sorted(v)) for w, v in kept.items())))
+            for w in names:
+                if not (rng_k[w][0] <= kept[w] <= rng_k[w][1]):
+                    viol = {"kind": "clean-wrong",
+                            "detail": "%s kept %s of present %s in archive %s; model keeps %s (optional ties up to %s); index knew %s" % (
+                                argv, sorted(kept[w]), sorted(present[w]), w, sorted(rng_k[w][0]), sorted(rng_k[w][1]),
+                                {o: (sorted(v) if v is not None else None) for o, v in indexed.items()})}
+                    break
+            if viol:
+                break
+            if all(len(model[w][1]) == 0 for w in names):
+                rf = loopsim.run_bob([a for a in argv if a != "-n"], os.path.join(fresh, "proj"), {}, workdir=top)
+                kept_fresh = {w: {rel2id[x] for x in _listing(os.path.join(fresh, "store-" + w)) if x in rel2id} for w in names}
+                if rf.rc != 0 or kept_fresh != kept:
+                    viol = {"kind": "result-depends-on-index-state",
+                            "detail": "%s kept %s with the existing index but %s with a fresh one" % (argv, kept, kept_fresh)}
+                    break
+                stats.inc("fresh_index_comparisons")
+            for w in names:
+                if before[w] - after[w]:
+                    stats.inc("artifacts_deleted", len(before[w] - after[w]))
+                present[w] = set(kept[w])
+                indexed[w] = set(kept[w])
+    finally:
+        common.rmtree(top)
+    return {"violation": viol, "digest": common.digest_of(log), "stats": dict(stats), "nontrivial": stale_used,
+            "sim_time": float(len(log)),
+            "sample": {"n_arts": len(case["arts"]), "directed": case.get("directed"), "multi": True,
                        "ops": [[o[0]] + ([[render_expr(e) for e in o[1]]] + o[2:] if o[0] in ("find", "clean") else o[1:]) for o in case["ops"]][:12],
                        "log": log[:8]}}
